@@ -93,6 +93,11 @@ def isPrefix : List String → List String → Bool
 def classify (gate : List String) : Option String :=
   (IpaVerif.Generated.coverageTable.find? (fun row => isPrefix row.1 gate)).map (·.2)
 
+/-- a gate-path segment with its trailing digits written `#` (`bit12` -> `bit#`), as in the coverage table -/
+def normSeg (s : String) : String :=
+  let t := (s.toList.reverse.dropWhile Char.isDigit).reverse
+  if t.length < s.length then String.ofList t ++ "#" else s
+
 def protectedKinds : List String := ["dzkp", "dzkpProof", "mac", "macCheck", "shuffle", "count"]
 
 /-! ## Order of traffic: validate before open
